@@ -68,6 +68,7 @@ def check(run):
     _r3(run, mods['adf15'])
     _r4(run, mods)
     _r5(run, mods)
+    _r7(run, mods)
     from ._fresh import fresh_per_iteration
     nfresh = 0
     for fname in ('_thermalcx_adf15_2dto3d_converter', '_notation_adf11_adas2cherab'):
@@ -546,6 +547,130 @@ def _r2(run, prog, inst, mods):
 
 
 # ------------------------------------------------------------------------------------------ R3
+def _digit_width(items):
+    """how many digits a (sub)pattern can take: 0 no digit class, 1 exactly one unrepeated digit class, 2 more than one digit possible"""
+    import re._constants as rc
+    total = 0
+    for op, av in items:
+        if op is rc.IN:
+            isdig = any((o is rc.RANGE and a == (48, 57)) or (o is rc.CATEGORY and a is rc.CATEGORY_DIGIT) for o, a in av)
+            total += 1 if isdig else 0
+        elif op in (rc.MAX_REPEAT, rc.MIN_REPEAT) or (hasattr(rc, 'POSSESSIVE_REPEAT') and op is rc.POSSESSIVE_REPEAT):
+            lo, hi, sub = av
+            w = _digit_width(sub)
+            if w and (hi is rc.MAXREPEAT or hi >= 2):
+                return 2
+            total += w
+        elif op is rc.SUBPATTERN:
+            total += _digit_width(av[3])
+        elif op is rc.BRANCH:
+            total += max([_digit_width(b) for b in av[1]] or [0])
+        elif op is rc.CATEGORY and av is rc.CATEGORY_DIGIT:
+            total += 1
+        if total >= 2:
+            return 2
+    return total
+
+
+def _group_items(parsed, k):
+    import re._constants as rc
+    if k == 0:
+        return list(parsed)
+    found = []
+
+    def walk(items):
+        for op, av in items:
+            if op is rc.SUBPATTERN:
+                if av[0] == k:
+                    found.append(list(av[3]))
+                walk(av[3])
+            elif op in (rc.MAX_REPEAT, rc.MIN_REPEAT):
+                walk(av[2])
+            elif op is rc.BRANCH:
+                for b in av[1]:
+                    walk(b)
+    walk(parsed)
+    return found[0] if found else None
+
+
+def _r7(run, mods):
+    """R7: an integer header field read through a regular expression is captured at its full width: the (sub)pattern whose text is
+    handed to int() must be able to take more than one digit ('Z1=10' is charge ten, not one)."""
+    import re._parser as rp
+    from ..inline import resolver
+    run.describe('C08-R7', 'integers read through a regular expression: the captured (sub)pattern can take more than one digit')
+    for mname, mi in sorted(mods.items()):
+        for fname, fn in sorted(mi.functions.items()):
+            ints = [c for c in ast.walk(fn) if isinstance(c, ast.Call) and dotted(c.func) == 'int' and len(c.args) == 1]
+            if not ints:
+                continue
+            mnames = {}
+            for t, v, s2 in stores(fn):
+                if isinstance(t, ast.Name) and isinstance(v, ast.Call) and dotted(v.func) in ('re.match', 're.search', 're.fullmatch') and v.args:
+                    mnames.setdefault(t.id, []).append(v)
+            res = resolver(fn, stop=tuple(mnames))
+            consts = {k: v for k, v in mi.assigns.items() if isinstance(v, ast.Constant) and isinstance(v.value, str)}
+
+            def pattern_of(call):
+                p = res(call.args[0])
+                if isinstance(p, ast.Name) and p.id in consts:
+                    p = consts[p.id]
+                return p.value if isinstance(p, ast.Constant) and isinstance(p.value, str) else None
+
+            def match_of(e):
+                """(pattern text, group number) of an expression that is the text of a regex group, else None"""
+                k = None
+                if isinstance(e, ast.Subscript) and isinstance(e.value, ast.Call) and isinstance(e.value.func, ast.Attribute) \
+                        and e.value.func.attr == 'groups' and isinstance(e.slice, ast.Constant) and isinstance(e.slice.value, int) and e.slice.value >= 0:
+                    k, m = e.slice.value + 1, e.value.func.value
+                elif isinstance(e, ast.Call) and isinstance(e.func, ast.Attribute) and e.func.attr == 'group' and len(e.args) <= 1:
+                    if e.args and not (isinstance(e.args[0], ast.Constant) and isinstance(e.args[0].value, int)):
+                        return None
+                    k, m = (e.args[0].value if e.args else 0), e.func.value
+                elif isinstance(e, ast.Subscript) and isinstance(e.slice, ast.Constant) and isinstance(e.slice.value, int) and e.slice.value >= 0:
+                    k, m = e.slice.value, e.value          # match[k]
+                else:
+                    return None
+                calls = [m] if isinstance(m, ast.Call) and dotted(m.func) in ('re.match', 're.search', 're.fullmatch') else \
+                    mnames.get(m.id, []) if isinstance(m, ast.Name) else []
+                pats = {pattern_of(c) for c in calls}
+                if len(pats) != 1 or None in pats:
+                    return None
+                return pats.pop(), k
+
+            for c in ints:
+                a = res(c.args[0])
+                while isinstance(a, ast.Call) and isinstance(a.func, ast.Attribute) and a.func.attr in ('strip', 'lstrip', 'rstrip') and not a.args:
+                    a = a.func.value
+                if isinstance(a, ast.Call) and dotted(a.func) == 're.sub' and len(a.args) == 3:
+                    a = res(a.args[2])          # prefix removal from the matched text: the digits are those of the match
+                mk = match_of(a)
+                if mk is None:
+                    continue
+                run.subject('C08-R7')
+                what = '%s.%s int(%s)' % (mname, fname, norm(c.args[0])[:40])
+                try:
+                    parsed = rp.parse(mk[0])
+                except Exception as ex:      # an invalid pattern is not this rule's business
+                    run.undecided('C08-R7', what, 'pattern not parsed: %s' % ex)
+                    continue
+                items = _group_items(parsed, mk[1])
+                if items is None:
+                    run.undecided('C08-R7', what, 'group %d not found in %r' % (mk[1], mk[0][:40]))
+                    continue
+                w = _digit_width(items)
+                if w == 1:
+                    run.fail('C08-R7', 'cherab.openadas.parse.%s|%s|one-digit|%s' % (mname, fname, norm(c.args[0])[:30]), mi.relpath, c.lineno,
+                             '%s: the integer is read from %s of %r, which can take a single digit only: a value of ten or more is truncated'
+                             % (fname, 'group %d' % mk[1] if mk[1] else 'the match', mk[0]))
+                elif w == 0:
+                    run.undecided('C08-R7', what, 'no digit class in the captured pattern')
+                else:
+                    run.ok('C08-R7', what, 'multi-digit capture in %r' % mk[0][:50], sample=False)
+    run.floor('C08-R7', 5)
+
+
+
 def _r3(run, m15):
     run.describe('C08-R3', 'the three ADF15 header scrapers agree after level extraction; regex groups used <= groups defined')
     names = ['_scrape_metadata_hydrogen', '_scrape_metadata_hydrogen_like', '_scrape_metadata_full']
@@ -1045,6 +1170,11 @@ _A22 = PD + 'adf22.py'
 _UT = PD + 'utility.py'
 _IN = 'cherab/openadas/install.py'
 MUTANTS = [
+    dict(name='adf11-z1-single-digit-capture', file='cherab/openadas/parse/adf11.py',
+         find='                z1_pos = re.search(r"Z1\\s*=*\\s*[0-9]+\\s*", lines[i]).group()  # get Z1 part\n                ion_charge = int(re.sub(r"Z1[\\s*=]", "", z1_pos))',
+         replace='                ion_charge = int(re.search(r"Z1\\s*=*\\s*([0-9])", lines[i]).group(1))', expect='C08-R7'),
+    dict(name='adf15-block-count-single-digit', file='cherab/openadas/parse/adf15.py',
+         find="a?\\s*([0-9]*)\\s*([0-9]*).*/type", replace="a?\\s*([0-9])\\s*([0-9]*).*/type", expect='C08-R7'),
     dict(name='thermalcx-converter-reuses-one-array', file=_IN, edits=[
         dict(file=_IN, find="    new_rates = RecursiveDict()\n    for element, charge_states in rates.items():\n        for charge, transitions in charge_states.items():\n            for transition, rate in transitions.items():\n                data = np.empty((len(rate['ne']), len(rate['te']), 2))",
              replace="    new_rates = RecursiveDict()\n    data = None\n    for element, charge_states in rates.items():\n        for charge, transitions in charge_states.items():\n            for transition, rate in transitions.items():\n                if data is None or data.shape != (len(rate['ne']), len(rate['te']), 2):\n                    data = np.empty((len(rate['ne']), len(rate['te']), 2))")],
@@ -1070,6 +1200,9 @@ MUTANTS = [
 ]
 MUTANTS = [m for m in MUTANTS if m.get('expect')]
 TWINS = [
+    dict(name='adf11-z1-capture-group', file='cherab/openadas/parse/adf11.py',
+         find='                z1_pos = re.search(r"Z1\\s*=*\\s*[0-9]+\\s*", lines[i]).group()  # get Z1 part\n                ion_charge = int(re.sub(r"Z1[\\s*=]", "", z1_pos))',
+         replace='                ion_charge = int(re.search(r"Z1\\s*=*\\s*(\\d{1,3})", lines[i]).group(1))'),
     dict(name='conversion-in-the-exponent', file=_IN, find='rate_cherab[i][j + charge_correction]["ne"] = PerCm3ToPerM3.to(10**rate_adas[i][j]["ne"])', replace='rate_cherab[i][j + charge_correction]["ne"] = 10**(rate_adas[i][j]["ne"] + 6)'),
     dict(name='conversion-written-as-product', file=_IN, find='rate_cherab[i][j + charge_correction]["ne"] = PerCm3ToPerM3.to(10**rate_adas[i][j]["ne"])', replace='rate_cherab[i][j + charge_correction]["ne"] = 10**rate_adas[i][j]["ne"] * PerCm3ToPerM3.conversion_factor'),
     dict(name='message-text', file=_A15, find="Unable to parse ADF15 metadata.", replace="Could not parse the ADF15 metadata."),
